@@ -449,14 +449,19 @@ def main():
                 continue
             todo.setdefault(cls, []).append((b, s, detail))
         for (s, why) in b.crashes:
-            todo.setdefault("CRASH", []).append((b, s, why))
+            # worker deaths are triaged per batch: deaths of one batch (e.g. the known finding in hist/asan) must not
+            # use up the triage budget of another batch
+            todo.setdefault("CRASH " + b.label, []).append((b, s, why))
     n_triaged = 0
     for cls, items in sorted(todo.items()):
         seen_final = set()
         repeats = 0
-        for (b, s, detail) in items[: (3 if cls != "CRASH" else 12)]:
-            if repeats >= 2:
-                break  # worker deaths keep classifying to classes already seen
+        is_crash = cls.startswith("CRASH")
+        if is_crash:
+            cls = "CRASH"
+        for (b, s, detail) in items[: (3 if not is_crash else 16)]:
+            if repeats >= 3:
+                break  # worker deaths keep classifying to (unlisted) classes already seen
             n_triaged += 1
             if isinstance(s, tuple):
                 plan_path = os.path.join(BUILD, "cand-%s-%s-enum-%d-%d-%d-%d.plan" % ((prop, b.flavour) + s))
@@ -484,17 +489,23 @@ def main():
                 continue
             if not mine:
                 for c, _ in c1:
-                    other_props[c] = other_props.get(c, 0) + 1
+                    kf = match_known(known, c.split("/")[0], c)
+                    if kf:   # a listed finding attributed to another property by the operation in flight
+                        known_hits[kf["id"]] = known_hits.get(kf["id"], 0) + 1
+                    else:
+                        other_props[c] = other_props.get(c, 0) + 1
                 continue
             if mine and all(c in seen_final for c, _ in mine):
-                repeats += 1
+                # repeats of a listed finding do not end the triage of this batch: a rarer, unlisted death may follow
+                if not all(match_known(known, prop, c) for c, _ in mine):
+                    repeats += 1
             for c, d in mine:
                 if c in seen_final:
                     continue
                 seen_final.add(c)
                 kf = match_known(known, prop, c)
                 if kf:
-                    known_hits[kf["id"]] = known_hits.get(kf["id"], 0) + 1
+                    known_hits[kf["id"]] = known_hits.get(kf["id"], 0) + (1 if is_crash else len(items))
                     continue
                 tag = hashlib.sha1((c + str(s)).encode()).hexdigest()[:10]
                 outp = os.path.join(REPLAYS, "%s-%s.plan" % (prop, tag))
@@ -523,11 +534,16 @@ def main():
     if not samples:
         samples = ["no run completed"]
     probes = stats.get("probes", {})
-    zero_probes = [p for p in ["hash_table_expanded", "realloc_moved", "goto_cache_hit", "alt_node", "error_node_in_tree",
-                               "nil_node_in_tree", "parse_freed_nodes", "redefinition", "failed_redefinition",
-                               "define_after_failed_define", "free_of_non_current_grammar", "tree_walked_after_grammar_freed",
-                               "parse_lookahead2", "syntax_error_reported", "quiescent_point", "cost_flag_parse", "all_parses"]
-                   if probes.get(p, 0) == 0]
+    if prop == "C19":
+        expected_probes = ["ht_expanded", "ht_insert_after_remove", "ht_drain_cycle", "os_new_segment", "os_several_finished_objects",
+                           "vlo_realloc_moved"]
+    else:
+        expected_probes = ["hash_table_expanded", "realloc_moved", "goto_cache_hit", "alt_node", "error_node_in_tree",
+                           "nil_node_in_tree", "parse_lookahead2", "syntax_error_reported", "cost_flag_parse", "all_parses"]
+        if any(b.mode in ("hist", "oom", "ansichist") for b in batches):   # history probes only exist in history modes
+            expected_probes += ["parse_freed_nodes", "redefinition", "failed_redefinition", "define_after_failed_define",
+                                "free_of_non_current_grammar", "tree_walked_after_grammar_freed", "quiescent_point"]
+    zero_probes = [p for p in expected_probes if probes.get(p, 0) == 0]
     ev = {
         "property_id": prop,
         "tier": tier,
